@@ -125,6 +125,25 @@ PROPS["C04"] = dict(
     thorough=[spec("H-C04a[6]", "./pkg/astvalidation", C04T, "VerifC04VariableUsage", [6], "all pairs of well-formed type chains of depth <= 6 over 3 type names, hasDefault symbolic", ["allowed", "not allowed"])],
 )
 
+LIT = ["parser/c05_parser.go", "parser/c15_literals.go"]
+FWD = ["astnorm/c15_vars.go"]
+
+def c15(entry, n, what, covers, timeout=1800):
+    return spec("H-C15a-%s[%d]" % (what, n), "./pkg/astparser", LIT, entry, [n], "every valid GraphQL %s literal with %d body bytes (validity per the October 2021 grammar, assumed in the harness); real lexer+parser, ValueToJSON; oracle: RFC 8259 automaton + independent decoders" % (what, n), covers, timeout=timeout)
+
+PROPS["C15"] = dict(
+    title="Variable values survive extraction and forwarding",
+    level_text="bounded symbolic execution of literal extraction (lexer, parser, ValueToJSON incl. the block string value algorithm) against independent GraphQL/JSON decoders, and of variable extraction on a template with symbolic variable presence; every literal within the stated byte bounds lies on a solver-decided path",
+    level_note="bounds: literal body bytes; block string bodies restricted to printable ASCII, space, tab, CR, LF; forwarding through InputTemplate/loader (H-C15c) not covered yet; trusted base: gosym (incl. its model of json.Encoder string encoding), z3, harness oracles",
+    design_ref="DESIGN.md §4 C15",
+    assumptions=["literals are valid per the October 2021 lexical grammar (invalid literals accepted by the lenient lexer are outside)"],
+    stubs=["encoding/json.Encoder.Encode(string): RFC 8259 string encoding as Go implements it, modelled in the engine", "go-arena Alloc returns nil"],
+    quick=[c15("VerifC15StringLiteral", 5, "string", ["valid json"]), c15("VerifC15NumberLiteral", 6, "number", ["number"]), c15("VerifC15BlockString", 4, "blockstring", ["valid json"]), c15("VerifC15BlockString", 5, "blockstring", ["valid json"]),
+           spec("H-C15b", "./pkg/astnormalization", FWD, "VerifC15Forwarding", [], "template query($v: Int = 10, $w: [Int]){ f(a: {p: $v, q: $w, r: 5, t: \"x\\ty\"}) s(x: $v, y: $w) } with $v in {absent, null, 3} x $w in {absent, null, 7, [7,null]}", ["checked"])],
+    thorough=[c15("VerifC15StringLiteral", 7, "string", ["valid json"], 3000), c15("VerifC15NumberLiteral", 8, "number", ["number"]), c15("VerifC15BlockString", 6, "blockstring", ["valid json"], 3000),
+              spec("H-C15b", "./pkg/astnormalization", FWD, "VerifC15Forwarding", [], "template with symbolic variable presence (12 combinations)", ["checked"])],
+)
+
 NOT_APPLICABLE = {
     "C20": "The gRPC datasource's data path runs on protoreflect/dynamicpb/protocompile (reflection, unsafe, generated descriptors); no SSA->SMT encoding of it is within reach of the engine built here, and the property is about exactly that path (DESIGN.md §5).",
 }
@@ -172,7 +191,8 @@ def main():
     json.dump(manifest, open(os.path.join(HERE, "MANIFEST.json"), "w"), indent=1)
     print("wrote checks.json, MANIFEST.json: claimed", sorted(PROPS), "n/a", [x["property_id"] for x in na])
 
-SOURCE_COMMITS = ["324f3d1", "b295fb9", "754a210", "92e89fe", "9534127", "6272168", "a4dc5cb", "edb33ca", "e937ba3"]
+import subprocess
+SOURCE_COMMITS = [l.split()[0] for l in subprocess.run(["git", "-C", "/repo", "log", "--reverse", "--format=%h %s"], capture_output=True, text=True).stdout.splitlines() if l.split(" ", 1)[1].startswith("fix:")]
 
 if __name__ == "__main__":
     main()
